@@ -11,6 +11,7 @@ import numpy as np
 from skgstat import Variogram, OrdinaryKriging, MetricSpace
 
 from .common import quiet, all_close, gen_coords, gen_values, REPO
+from .common import guarded
 
 INFO = dict(
     rule='seeded data sets x settings x operation sequences: construct, read, caller mutates coordinate / value '
@@ -56,6 +57,7 @@ def build(case, coords, values):
         return Variogram(coords, values, **kw)
 
 
+@guarded
 def check_case(ctx, case):
     coords = np.array(case['coords'], float)
     values = np.array(case['values'], float)
@@ -180,6 +182,7 @@ print(json.dumps(out))
 '''
 
 
+@guarded
 def check_seeded(ctx):
     rng = ctx.rng
     coords = gen_coords(rng, 30, dim=2, kind='uniform')
@@ -210,6 +213,7 @@ def check_seeded(ctx):
             a['jackknife'], b['jackknife']), case, signature=dict(kind='not-reproducible', what='jackknife'))
 
 
+@guarded
 def check_seeded_inprocess(ctx):
     """seeded pair sampling / k-means / jackknife subsets: two constructions in one process agree, for
     several seeds including 0"""
